@@ -7,6 +7,17 @@ A recipe is a list of nodes, bottom first:
    "density": int | None} | None}
   {"t": "group", "blend": "PASS_THROUGH" | ..., "opacity", "fill", "visible", "clip", "knockout", "mask": as above | None,
    "children": [...]}
+Extensions (fill layers, layer effects, adjustment layers; C11/C13 "fx" streams):
+  any pixel / fill / group node may carry "effects": {"master": bool, "items": [
+      {"kind": "color", "color": [..one value per channel, 0..255..], "opacity": 0..100, "blend": "Nrml"|"Mltp"|..., "enabled": bool},
+      {"kind": "gradient", "stops": [[loc 0..4096, [color]], ...], "alpha_stops": [[loc, 0..100], ...] | None, "angle": deg,
+       "opacity", "blend", "enabled"},
+      {"kind": "stroke", "color": [...], "size": px, "position": "OutF"|"InsF"|"CtrF", "opacity", "blend", "enabled"}]}
+  {"t": "fill", "fillcolor": [..], "rect": [l,t,r,b] (record rectangle; [0,0,0,0] = whole canvas),
+   "vmask": None | {"rects": [[l,t,r,b], ...] in pixels, "disabled": bool, "shape": bool (pixel_data_irrelevant: a shape layer)},
+   "pixels": None | {"color": uint8 (h,w,C), "alpha": uint8 (h,w) | None}   (the rendered pixels Photoshop stores beside the fill),
+   + opacity, fill, blend, visible, clip, knockout, mask as for pixel nodes}
+  {"t": "adjustment", "rect": [l,t,r,b], + opacity, blend, visible, clip}      (an Invert adjustment layer)
 Records are built with the library's own low-level classes and the document is
 serialised and re-opened, so what is composited went through the real reader.
 """
@@ -27,7 +38,14 @@ from psd_tools.psd.layer_and_mask import (
     LayerInfo, LayerRecord, LayerRecords, MaskData, MaskFlags, MaskParameters,
 )
 from psd_tools.psd.tagged_blocks import SectionDividerSetting, TaggedBlock, TaggedBlocks
-from psd_tools.psd.base import ByteElement
+from psd_tools.psd.base import ByteElement, EmptyElement
+from psd_tools.psd.descriptor import (
+    Bool, Descriptor, DescriptorBlock, DescriptorBlock2, Double, Enumerated, Integer, List as DList, String, UnitFloat,
+)
+from psd_tools.psd.vector import (
+    ClosedKnotLinked, ClosedPath, InitialFillRule, Path, PathFillRule, VectorMaskSetting,
+)
+from psd_tools.terminology import Unit
 
 
 def _chan(data: bytes, w, h, depth, compression):
@@ -49,7 +67,127 @@ def _common(rec: LayerRecord, n):
         rec.tagged_blocks[Tag.KNOCKOUT_SETTING] = TaggedBlock(key=Tag.KNOCKOUT_SETTING, data=ByteElement(1))
 
 
-def _records(nodes, depth, compression, out_recs, out_chans, counter):
+def _color_desc(values, mode):
+    """colour descriptor of the document's colour mode from one byte per channel (the storage convention of the
+    compositor: CMYK and grey values are 'paper white = 255')"""
+    v = [float(x) for x in values]
+    if mode == "RGB":
+        d = Descriptor(name="\x00", classID=b"RGBC")
+        for k, x in zip((b"Rd  ", b"Grn ", b"Bl  "), v):
+            d[k] = Double(x)
+    elif mode == "L":
+        d = Descriptor(name="\x00", classID=b"Grsc")
+        d[b"Gry "] = Double(100.0 - v[0] * 100.0 / 255.0)
+    elif mode == "CMYK":
+        d = Descriptor(name="\x00", classID=b"CMYC")
+        for k, x in zip((b"Cyn ", b"Mgnt", b"Ylw ", b"Blck"), v):
+            d[k] = Double(100.0 - x * 100.0 / 255.0)
+    else:
+        raise ValueError(mode)
+    return d
+
+
+def _effect_common(d, e):
+    d[b"enab"] = Bool(bool(e.get("enabled", True)))
+    d[b"present"] = Bool(True)
+    d[b"showInDialog"] = Bool(True)
+    d[b"Md  "] = Enumerated(typeID=b"BlnM", enum=e.get("blend", "Nrml").encode("ascii"))
+
+
+def _gradient_desc(e, mode):
+    g = Descriptor(name="Gradient\x00", classID=b"Grdn")
+    g[b"Nm  "] = String("custom\x00")
+    g[b"GrdF"] = Enumerated(typeID=b"GrdF", enum=b"CstS")
+    g[b"Intr"] = Double(4096.0)
+    stops = DList()
+    for loc, col in e["stops"]:
+        st = Descriptor(name="\x00", classID=b"Clrt")
+        st[b"Clr "] = _color_desc(col, mode)
+        st[b"Type"] = Enumerated(typeID=b"Clry", enum=b"UsrS")
+        st[b"Lctn"] = Integer(int(loc))
+        st[b"Mdpn"] = Integer(50)
+        stops.append(st)
+    g[b"Clrs"] = stops
+    if e.get("alpha_stops") is not None:
+        tr = DList()
+        for loc, op in e["alpha_stops"]:
+            st = Descriptor(name="\x00", classID=b"TrnS")
+            st[b"Opct"] = UnitFloat(unit=Unit.Percent, value=float(op))
+            st[b"Lctn"] = Integer(int(loc))
+            st[b"Mdpn"] = Integer(50)
+            tr.append(st)
+        g[b"Trns"] = tr
+    return g
+
+
+def _effects_block(fx, mode):
+    """the `lfx2` block (object based effects layer info) of {"master": bool, "items": [...]}"""
+    d = DescriptorBlock2(name="\x00", classID=b"null", version=0, data_version=16)
+    d[b"Scl "] = UnitFloat(unit=Unit.Percent, value=100.0)
+    d[b"masterFXSwitch"] = Bool(bool(fx.get("master", True)))
+    multi = {}
+    for e in fx.get("items", []):
+        k = e["kind"]
+        if k == "color":
+            x = Descriptor(name="\x00", classID=b"SoFi")
+            _effect_common(x, e)
+            x[b"Clr "] = _color_desc(e["color"], mode)
+            x[b"Opct"] = UnitFloat(unit=Unit.Percent, value=float(e.get("opacity", 100)))
+            multi.setdefault((b"SoFi", b"solidFillMulti"), []).append(x)
+        elif k == "gradient":
+            x = Descriptor(name="\x00", classID=b"GrFl")
+            _effect_common(x, e)
+            x[b"Opct"] = UnitFloat(unit=Unit.Percent, value=float(e.get("opacity", 100)))
+            x[b"Grad"] = _gradient_desc(e, mode)
+            x[b"Angl"] = UnitFloat(unit=Unit.Angle, value=float(e.get("angle", 0)))
+            x[b"Type"] = Enumerated(typeID=b"GrdT", enum=e.get("style", "Lnr ").encode("ascii"))
+            x[b"Rvrs"] = Bool(bool(e.get("reverse", False)))
+            x[b"Dthr"] = Bool(False)
+            x[b"Algn"] = Bool(True)
+            x[b"Scl "] = UnitFloat(unit=Unit.Percent, value=float(e.get("scale", 100)))
+            multi.setdefault((b"GrFl", b"gradientFillMulti"), []).append(x)
+        elif k == "stroke":
+            x = Descriptor(name="\x00", classID=b"FrFX")
+            _effect_common(x, e)
+            x[b"Styl"] = Enumerated(typeID=b"FStl", enum=e.get("position", "OutF").encode("ascii"))
+            x[b"PntT"] = Enumerated(typeID=b"FrFl", enum=b"SClr")
+            x[b"Opct"] = UnitFloat(unit=Unit.Percent, value=float(e.get("opacity", 100)))
+            x[b"Sz  "] = UnitFloat(unit=Unit.Pixels, value=float(e.get("size", 3)))
+            x[b"Clr "] = _color_desc(e["color"], mode)
+            x[b"overprint"] = Bool(False)
+            multi.setdefault((b"FrFX", b"frameFXMulti"), []).append(x)
+        else:
+            raise ValueError(k)
+    for (single, many), items in multi.items():
+        if len(items) == 1:
+            d[single] = items[0]
+        else:
+            lst = DList()
+            for it in items:
+                lst.append(it)
+            d[many] = lst
+    return TaggedBlock(key=Tag.OBJECT_BASED_EFFECTS_LAYER_INFO, data=d)
+
+
+def _vector_mask_block(vm, size):
+    """a vector mask made of axis-parallel rectangles given in pixels (combined by union)"""
+    W, H = size
+    items = [PathFillRule(), InitialFillRule(0)]
+    for k, (l, t, r, b) in enumerate(vm["rects"]):
+        pts = [(t / H, l / W), (t / H, r / W), (b / H, r / W), (b / H, l / W)]
+        knots = [ClosedKnotLinked(preceding=p, anchor=p, leaving=p) for p in pts]
+        items.append(ClosedPath(items=knots, operation=1, index=k))
+    flags = 4 if vm.get("disabled") else 0
+    return TaggedBlock(key=Tag.VECTOR_MASK_SETTING1, data=VectorMaskSetting(version=3, flags=flags, path=Path(items)))
+
+
+def _decorate(rec, n, mode, size):
+    """blocks any layer record may carry: layer effects"""
+    if n.get("effects"):
+        rec.tagged_blocks[Tag.OBJECT_BASED_EFFECTS_LAYER_INFO] = _effects_block(n["effects"], mode)
+
+
+def _records(nodes, depth, compression, out_recs, out_chans, counter, mode="RGB", size=(1, 1)):
     for n in nodes:
         counter[0] += 1
         name = n.get("name") or "%s%d" % (n["t"][0], counter[0])
@@ -63,7 +201,7 @@ def _records(nodes, depth, compression, out_recs, out_chans, counter):
             b.channel_info = [ChannelInfo(id=ChannelID(i - 1), length=2) for i in range(4)]
             out_recs.append(b)
             out_chans.append(ChannelDataList([ChannelData(compression=Compression.RAW, data=b"") for _ in range(4)]))
-            _records(n["children"], depth, compression, out_recs, out_chans, counter)
+            _records(n["children"], depth, compression, out_recs, out_chans, counter, mode, size)
             g = LayerRecord(name=name)
             g.tagged_blocks = TaggedBlocks()
             blend = BlendMode[n.get("blend", "PASS_THROUGH")]
@@ -72,6 +210,7 @@ def _records(nodes, depth, compression, out_recs, out_chans, counter):
                 data=SectionDividerSetting(SectionDivider.OPEN_FOLDER, signature=b"8BIM", blend_mode=blend))
             g.blend_mode = BlendMode.NORMAL if blend == BlendMode.PASS_THROUGH else blend
             _common(g, n)
+            _decorate(g, n, mode, size)
             g.channel_info = [ChannelInfo(id=ChannelID(i - 1), length=2) for i in range(4)]
             gch = ChannelDataList([ChannelData(compression=Compression.RAW, data=b"") for _ in range(4)])
             m = n.get("mask")
@@ -82,12 +221,55 @@ def _records(nodes, depth, compression, out_recs, out_chans, counter):
             out_recs.append(g)
             out_chans.append(gch)
             continue
+        if n["t"] in ("fill", "adjustment"):
+            l, t, r, b = n.get("rect") or [0, 0, 0, 0]
+            rec = LayerRecord(top=t, left=l, bottom=b, right=r, name=name)
+            rec.tagged_blocks = TaggedBlocks()
+            rec.blend_mode = BlendMode[n.get("blend", "NORMAL")]
+            _common(rec, n)
+            infos, chans = [], ChannelDataList()
+            nch = {"L": 1, "RGB": 3, "CMYK": 4}[mode]
+            px = n.get("pixels") if n["t"] == "fill" else None
+            if n["t"] == "fill":
+                sd = DescriptorBlock(name="\x00", classID=b"null", version=16)
+                sd[b"Clr "] = _color_desc(n["fillcolor"], mode)
+                rec.tagged_blocks[Tag.SOLID_COLOR_SHEET_SETTING] = TaggedBlock(key=Tag.SOLID_COLOR_SHEET_SETTING, data=sd)
+                vm = n.get("vmask")
+                if vm:
+                    rec.tagged_blocks[Tag.VECTOR_MASK_SETTING1] = _vector_mask_block(vm, size)
+                    if vm.get("shape"):
+                        rec.flags = LayerFlags(visible=bool(n.get("visible", True)), pixel_data_irrelevant=True)
+            else:
+                rec.tagged_blocks[Tag.INVERT] = TaggedBlock(key=Tag.INVERT, data=EmptyElement())
+            _decorate(rec, n, mode, size)
+            if px is not None:
+                w, h = r - l, b - t
+                if px.get("alpha") is not None:
+                    infos.append(ChannelInfo(id=ChannelID.TRANSPARENCY_MASK, length=2))
+                    chans.append(_chan(_bytes(px["alpha"], depth), w, h, depth, compression))
+                for ci in range(nch):
+                    infos.append(ChannelInfo(id=ChannelID(ci), length=2))
+                    chans.append(_chan(_bytes(np.asarray(px["color"])[:, :, ci], depth), w, h, depth, compression))
+            else:
+                for cid in [ChannelID.TRANSPARENCY_MASK] + [ChannelID(ci) for ci in range(nch)]:
+                    infos.append(ChannelInfo(id=cid, length=2))
+                    chans.append(ChannelData(compression=Compression.RAW, data=b""))
+            m = n.get("mask")
+            if m:
+                rec.mask_data, minfo, mchan = _mask(m, compression)
+                infos.append(minfo)
+                chans.append(mchan)
+            rec.channel_info = infos
+            out_recs.append(rec)
+            out_chans.append(chans)
+            continue
         l, t, r, b = n["rect"]
         w, h = r - l, b - t
         rec = LayerRecord(top=t, left=l, bottom=b, right=r, name=name)
         rec.tagged_blocks = TaggedBlocks()
         rec.blend_mode = BlendMode[n.get("blend", "NORMAL")]
         _common(rec, n)
+        _decorate(rec, n, mode, size)
         infos, chans = [], ChannelDataList()
         color = n["color"]
         if n.get("alpha") is not None:
@@ -132,7 +314,7 @@ def _bytes(arr, depth):
 
 def build(recipe, size, mode="RGB", depth=8, compression=Compression.RAW, reopen=True) -> PSDImage:
     recs, chans = [], []
-    _records(recipe, depth, compression, recs, chans, [0])
+    _records(recipe, depth, compression, recs, chans, [0], mode, tuple(size))
     header = PSDImage._make_header(mode, size, depth)
     info = LayerInfo(layer_count=len(recs), layer_records=LayerRecords(recs), channel_image_data=ChannelImageData(chans))
     psd = PSD(header=header, image_data=ImageData.new(header), image_resources=ImageResources.new(),
